@@ -61,11 +61,23 @@ class SharedLog(BaseJournalBackend, BaseJournalSnapshot):
         return self.snapshot
 
 
+_SHARED: dict[int, SharedLog] = {}
+
+
+def _view_of(key: int) -> "View":
+    return View(_SHARED[key])
+
+
 class View(BaseJournalBackend, BaseJournalSnapshot):
-    """Per-worker view of a SharedLog (own `after_append`, shared records)."""
+    """Per-worker view of a SharedLog (own `after_append`, shared records). Pickling a view (a
+    storage handed to a child process) yields another view of the SAME log."""
 
     def __init__(self, shared: SharedLog) -> None:
         self.shared = shared
+
+    def __reduce__(self) -> tuple:
+        _SHARED[id(self.shared)] = self.shared
+        return (_view_of, (id(self.shared),))
 
     def read_logs(self, k: int) -> list[dict[str, Any]]:
         return self.shared.read_logs(k)
@@ -148,14 +160,22 @@ def _run_sequence(seq: tuple, n_workers: int, part: Part) -> None:
     """seq: tuple of (worker, op name, foreign-landing or None); foreign = (worker, op name)."""
     backends.reset_uuid()
     shared = SharedLog()
-    workers = [mk_worker(shared) for _ in range(n_workers)]
+    orig_n = n_workers
+    workers = [mk_worker(shared) for _ in range(max(n_workers, 1))]
     for op in SEED_OPS:
         do_op(workers[0], op, IDS)
+    if n_workers < 0:
+        # the other workers are pickled copies of the first one (a storage handed to child
+        # processes): they must behave like independently opened storages
+        _SHARED.clear()
+        blob = pickle.dumps(workers[0])
+        workers += [pickle.loads(blob) for _ in range(-n_workers - 1)]
+        n_workers = -n_workers
     snaps: list = []  # (log length, worker idx, pickled replay result)
     prev = None
 
     def fail(clause: str, detail: Any) -> None:
-        part.violation(f"journal-replay|{clause}", {"sequence": seq, "n_workers": n_workers, "clause": clause,
+        part.violation(f"journal-replay|{clause}{'|pickled-worker' if orig_n < 0 else ''}", {"sequence": seq, "n_workers": orig_n, "clause": clause,
                                                     "detail": detail, "log": list(shared.logs)})
 
     def sync_all_and_compare(tag: str) -> Any:
@@ -262,19 +282,19 @@ def task_fn(task: tuple) -> dict:
     part = Part()
     if kind == "plain":
         # all sequences of `depth` calls whose first call is `first`
-        rest = list(itertools.product(range(n_workers), NAMES))
+        rest = list(itertools.product(range(abs(n_workers)), NAMES))
         for tail in itertools.product(rest, repeat=depth - 1):
             seq = (first + (None,),) + tuple(t + (None,) for t in tail)
             run_sequence(seq, n_workers, part)
             part.add("evaluations")
     else:
         # foreign landing: sequences of `depth` calls, exactly one of which has a foreign call landing
-        rest = list(itertools.product(range(n_workers), NAMES))
+        rest = list(itertools.product(range(abs(n_workers)), NAMES))
         for tail in itertools.product(rest, repeat=depth - 1):
             base = (first,) + tail
             for pos in range(depth):
                 for fname in FOREIGN:
-                    fw = (base[pos][0] + 1) % n_workers
+                    fw = (base[pos][0] + 1) % abs(n_workers)
                     seq = tuple(c + ((fw, fname) if i == pos else None,) for i, c in enumerate(base))
                     run_sequence(seq, n_workers, part)
                     part.add("evaluations")
@@ -295,6 +315,10 @@ def run(tier: str, replay: str | None = None) -> int:
         tasks.append(("plain", 2, d, first))
     for first in itertools.product(range(2), NAMES):
         tasks.append(("foreign", 2, 2 if tier == "quick" else 3, first))
+    # worker 1 is a pickled copy of worker 0 (n_workers = -2)
+    for first in itertools.product(range(2), NAMES):
+        tasks.append(("plain", -2, 2 if tier == "quick" else 3, first))
+        tasks.append(("foreign", -2, 2, first))
     if tier == "thorough":
         for first in itertools.product(range(3), NAMES):
             tasks.append(("plain", 3, 3, first))
@@ -307,7 +331,7 @@ def run(tier: str, replay: str | None = None) -> int:
     ]
     return ctx.finish(
         exhaustive=True,
-        rule="every sequence of d calls (d=3 quick / 4 thorough, after a 2-record seed) by 2 workers over a 16-op alphabet incl. rejected calls; every sequence of 2/3 calls with one foreign append landing between a call's append and read; per log: all 2^(n-1) batch splits and all snapshot positions x workers",
+        rule="every sequence of d calls (d=3 quick / 4 thorough, after a 2-record seed) by 2 workers over a 16-op alphabet incl. rejected calls; every sequence of 2/3 calls with one foreign append landing between a call's append and read; per log: all 2^(n-1) batch splits and all snapshot positions x workers; the same with worker 1 being a pickled copy of worker 0 (depth 2 / 3)",
     )
 
 
